@@ -72,6 +72,11 @@ check("C05", "exploration",
       "Trusts the own path interpreter, the xmlinfo reader and the CSS named-colour table in /verif; an SVG-only registry is used (embedded CSS is C11's business); paths longer than the bound are not covered.",
       "bounded exhaustive enumeration vs independent path-data interpreter and tree comparison", "DESIGN.md#c05")
 
+check("C01", "exploration",
+      "Programs are enumerated exhaustively per family: F1 operator nesting (every ordered pair of the complete binary/assignment/unary operator sets in both nestings with explicit parentheses, member/call/new/optional-chaining/template/arrow/spread/yield positions, `in` in for-init), F2 conditional/boolean/nullish rewrites (41 statement templates x condition/then/else atoms incl. every falsy/truthy literal spelling), F3 statement lists (pairs, thorough triples, of 34 statement forms in 8 contexts, sloppy and strict), F4 flow merging (25 structures x return/throw/break/continue/expression combinations, 12 loop shapes), F5 declarations and hoisting, F6 token adjacency and ASI (36 endings x 36 beginnings x 4 separators, ~250 special-cased spellings), F7 string/template/regexp/number literal forms, F8 functions/classes/objects/built-in rewrites, F9 top-level scripts. Each program is minified under 8 configurations (KeepVarNames x Version) and every distinct output is executed by V8 next to the original under every input vector; host-call log, completion and globals must be equal. Mismatches are re-confirmed in fresh contexts.",
+      "V8 (node 20) is the reference engine; observation excludes function/regexp source text, .name/.length and error messages; programs whose original fails to compile or hits TDZ, direct eval and Annex-B block functions are out of the domain; sizes beyond the family bounds are not covered.",
+      "bounded exhaustive program enumeration with differential execution on an independent engine", "DESIGN.md#c01", engine="jsrun")
+
 ALL = ["C%02d" % i for i in range(1, 21)]
 NOT_YET = {p: "check not built yet in this revision (planned, see DESIGN.md section 4); not claimed until its command exists" for p in ALL if p not in CHECKS}
 
@@ -90,6 +95,7 @@ manifest = {
         {"name": "vsched", "path": "/verif/internal/vsync", "serves_properties": ["C12", "C13", "C14"], "kind_free_text": "cooperative deterministic scheduler with shims for sync.RWMutex/Mutex/WaitGroup/Once, io.Pipe and go; stateless DFS over schedules with prefix replay, iterative preemption bounding and state-key pruning; applied to the real minify.go through a generated go build -overlay"},
         {"name": "ptsup", "path": "/verif/internal/ptsup", "serves_properties": ["C20"], "kind_free_text": "ptrace supervisor: traces file-mutating system calls of the real binary, kills before the k-th, tears the k-th write, or fails it with an errno"},
         {"name": "cli", "path": "/verif/internal/props/c19", "serves_properties": ["C19"], "kind_free_text": "tree x invocation enumerator on the real binary with a reference model of destinations"},
+        {"name": "jsrun", "path": "/verif/node/jsoracle.js", "serves_properties": ["C01", "C02", "C09", "C16"], "kind_free_text": "pool of node workers: V8 executes original and minified programs with recording host functions under every input vector; bundled acorn parses at a chosen ECMAScript version"},
         {"name": "bfs", "path": "/verif/internal/props/c15", "serves_properties": ["C15"], "kind_free_text": "explicit-state breadth-first search over operation histories; successor = replay on a fresh real object + one operation; reference-model canonical state for deduplication"},
     ],
     "checks": [CHECKS[k] for k in sorted(CHECKS)],
